@@ -582,6 +582,103 @@ pub fn ck_try_sig(f: (usize, usize), h: (usize, usize)) {
     assert!(ts.args() == f.0 + (to - f.1) || ts.args() + 1 == h.0 + (to - h.1) || ts.args() == h.0 + (to - h.1) || ts.args() == 0);
 }
 
+// ------------------------------------------------------------------ n-ary fork / bracket (C07, C02)
+fn sn(i: u8, a: usize, o: usize) -> SigNode {
+    set_sig(i as usize, a, o, 0, 0);
+    SigNode { sig: Signature::new(a, o), node: Node(i) }
+}
+/// fork F G H xs: every function sees the same arguments (its own top a_i of them); functions run last-first,
+/// so the first function's results end on top; nothing beneath the max a_i arguments is touched
+pub fn ck_fork(len: usize, sigs: [(usize, usize); 3], n: usize) {
+    let (mut env, s, u) = mk(len, 1);
+    let mut ops: Ops = Vec::with_capacity(3);
+    let mut i = 0;
+    while i < n {
+        ops.push(sn(i as u8, sigs[i].0, sigs[i].1));
+        i += 1;
+    }
+    let mut m = 0;
+    let mut outs = 0;
+    let mut i = 0;
+    while i < n {
+        if sigs[i].0 > m {
+            m = sigs[i].0;
+        }
+        outs += sigs[i].1;
+        i += 1;
+    }
+    let r = rt_arm_fork(ops, &mut env);
+    if len < m {
+        assert!(r.is_err());
+        return;
+    }
+    assert!(r.is_ok());
+    assert!(env.nlog == n);
+    let mut k = 0;
+    while k < n {
+        // k-th executed is operand n-1-k
+        let op = n - 1 - k;
+        assert!(env.log_node[k] as usize == op);
+        let seen = &env.log_stack[k];
+        let a = sigs[op].0;
+        assert!(seen.len() >= a);
+        // its arguments are exactly the original top a values, in order
+        assert!(same(&seen[seen.len() - a..], &s[len - a..]));
+        // nothing beneath fork's arguments was touched
+        assert!(same(&seen[..len - m], &s[..len - m]));
+        k += 1;
+    }
+    assert!(env.rt.stack.len() == len - m + outs);
+    assert!(same(&env.rt.stack[..len - m], &s[..len - m]));
+    assert!(same(&env.rt.under_stack, &u));
+}
+/// bracket F G H: consecutive argument groups (F's on top); every function sees exactly its own group
+pub fn ck_bracket(len: usize, sigs: [(usize, usize); 3], n: usize) {
+    let (mut env, s, u) = mk(len, 1);
+    let mut ops: Ops = Vec::with_capacity(3);
+    let mut i = 0;
+    while i < n {
+        ops.push(sn(i as u8, sigs[i].0, sigs[i].1));
+        i += 1;
+    }
+    let mut total = 0;
+    let mut outs = 0;
+    let mut i = 0;
+    while i < n {
+        total += sigs[i].0;
+        outs += sigs[i].1;
+        i += 1;
+    }
+    let r = rt_arm_bracket(ops, &mut env);
+    if len < total {
+        assert!(r.is_err());
+        return;
+    }
+    assert!(r.is_ok());
+    assert!(env.nlog == n);
+    let mut k = 0;
+    while k < n {
+        let op = n - 1 - k;
+        assert!(env.log_node[k] as usize == op);
+        let seen = &env.log_stack[k];
+        let a = sigs[op].0;
+        // offset of this operand's group from the top of the original stack
+        let mut above = 0;
+        let mut j = 0;
+        while j < op {
+            above += sigs[j].0;
+            j += 1;
+        }
+        assert!(seen.len() >= a);
+        assert!(same(&seen[seen.len() - a..], &s[len - above - a..len - above]));
+        assert!(same(&seen[..len - total], &s[..len - total]));
+        k += 1;
+    }
+    assert!(env.rt.stack.len() == len - total + outs);
+    assert!(same(&env.rt.stack[..len - total], &s[..len - total]));
+    assert!(same(&env.rt.under_stack, &u));
+}
+
 // ------------------------------------------------------------------ canary
 //@ id=C07.e3.stack.canary props=C02,C04,C07,C11 level=bounded tier=quick expect=fail desc="deliberately false: dup_values leaves the stack unchanged"
 #[kani::proof]
